@@ -15,7 +15,7 @@ var fragCore = []string{
 
 // fragMore extends fragCore to the full alphabet F.
 var fragMore = []string{
-	"&lt;", "&#13;", "&#0;", "\r", "\x00", "\xff", "\U0001F600", "&", "\"", "'", "=", "/",
+	"&lt;", "&#13;", "&#0;", "\r", "\x00", "\xff", "\U0001F600", "\ufeff", "&", "\"", "'", "=", "/",
 	"<B>", "<b", "<b ", "</", "<a href=", "<a href=\"", "<b/>", "<x/>",
 	"<SCRIPT>", "<script/>", "<scrİpt>", "</SCRIPT>", "<style/>",
 	"--!>", "<!-->", "<![CDATA[", "]]>", "<?pi?>", "<!DOCTYPE html>", "<!",
@@ -62,6 +62,10 @@ var urlFrags = []string{
 	"@", "?", "#", ".", "a", "é", " ", " ", "%", "[", "]", "&#0;", "&#1;", "&#x1f;", "\x7f", "\x0b", "\x0c",
 	"e.x", "&amp;", "=", "&",
 }
+
+// urlPrefixes / urlTailFrags: well-formed beginnings and the fragments that matter at the end of a URL.
+var urlPrefixes = []string{"http://e.x/", "http://e.x", "/p", "mailto:a@e.x", "//e.x/p"}
+var urlTailFrags = []string{"?", "#", "/", ".", ":", "@", "a", "=", "&amp;", "%", "%3a", "%0a", "%20", " ", "\u00a0", "\u2003", "\t", "\n", "\\", "é", "[", "]", "&#0;", "\x7f", "+"}
 
 // urlBytes: byte alphabet for shallow byte-exhaustive URL strings.
 var urlBytes = []byte{'j', 's', ':', '/', ' ', '\t', '\n', '%', '\\', '#', '?', 0x01, 'a'}
